@@ -76,8 +76,11 @@ def reference(train_trees, level, kind, thr, pwb, sep=(' ', ';esyll', ';eword'))
     return summary, probs
 
 
-def make_case(train_trees, sep, style, level, test_units, kind, thr, pwb, family):
+def make_case(train_trees, sep, style, level, test_units, kind, thr, pwb, family, blanks=()):
     train = [sl.render(t, sep, style) for t in train_trees]
+    # blank and whitespace-only lines of the training text are ignored (positions given by the caller)
+    for pos, b in sorted(blanks, reverse=True):
+        train.insert(min(pos, len(train)), b)
     test = gens.lines(test_units)
     li, ki = LEVELS.index(level), KINDS.index(kind)
 
@@ -203,7 +206,9 @@ def main():
         kind = KINDS[(k // 3) % 3]      # crossed with the phone family (k % 3), not in lockstep with it
         thr = Fraction(rng.randint(0, 8), 8) if rng.random() < 0.7 else Fraction(rng.randint(0, 1000), 1000)
         pwb = rng.choice([None, None, Fraction(0), Fraction(1, 8), Fraction(1, 4), Fraction(1, 2), Fraction(1)])
-        cases.append(make_case(train_trees, sep, style, level, test_units, kind, thr, pwb, 'trees-%s-%s' % (fam, level)))
+        blanks = [(rng.randint(0, len(train_trees)), rng.choice(['', ' ', '\n', '  \t'])) for _ in range(rng.randint(1, 3))] if k % 4 == 1 else []
+        cases.append(make_case(train_trees, sep, style, level, test_units, kind, thr, pwb,
+                               'trees-%s-%s%s' % (fam, level, '-blank-lines' if blanks else ''), blanks))
     for c in cases:
         ck.count('family:' + c['desc']['family'])
         ck.count('type:' + c['desc']['type'])
